@@ -264,7 +264,9 @@ def replay_protocol(pyhf, backend, precision, chunk, seed):
             out["competitors"] += 1
             fc = tl_obj(list(cpt))
             if fc < fun - FUN_TOL(fun, o):
-                add("a feasible grid point has a lower objective than the reported optimum", dict(det, pars=pars, fun=fun, competitor=list(cpt), competitor_fun=fc), tags + ["optimum"])
+                on_b = any((not eff_fixed[i]) and init[i] in (bounds[i][0], bounds[i][1]) for i in range(3))
+                add("a feasible grid point has a lower objective than the reported optimum", dict(det, pars=pars, fun=fun, competitor=list(cpt), competitor_fun=fc),
+                    tags + ["optimum", "competitor"] + (["init_on_bound"] if on_b else []))
                 break
         if sum(eff_fixed) >= 1:
             out["nontrivial"] += 1
